@@ -88,8 +88,11 @@ NODEBUG_PROFILE = cratebuild.PROFILE.replace("[profile.dev]\n", "[profile.dev]\n
 
 
 def nodebug_decls(tier, seed):
+    # everything whose behaviour a profile switch could plausibly gate (defaults, finiteness, serde, generators) in full, plus a quarter of the
+    # constructor / permutation corpora, the message corpus, the homonyms and the seeded random tail, so that every runtime monitor has subjects here
     return (corpus_extra.build_defaults(tier, seed) + corpus_extra.build_finite(tier, seed) + corpus_extra.build_unchecked(tier, seed) + corpus_serde.build(tier, seed)
-            + corpus_arb.build(tier, seed))
+            + corpus_arb.build(tier, seed) + corpus_ctor.build(tier, seed)[::4] + corpus_extra.build_perm(tier, seed)[::4] + corpus_extra.build_message(tier, seed)
+            + corpus_extra.build_homonyms(tier, seed) + corpus_random.build(tier, seed))
 
 
 def nodefault_decls(tier, seed):
@@ -104,7 +107,7 @@ def nodefault_decls(tier, seed):
 #   fuzzcfg   - `--cfg fuzzing`, the flag cargo-fuzz / afl.rs compile Arbitrary impls with (seeded C14-n)
 #   nodefault - nutype with `default-features = false` (its `std` feature off) next to `arbitrary`/`serde` (seeded C09-m)
 TWINS = [
-    {"name": "nodebug", "props": {"C01", "C03", "C04", "C09", "C12", "C14"}, "decls": nodebug_decls, "profile": NODEBUG_PROFILE, "rustflags": None, "default_features": True,
+    {"name": "nodebug", "props": {"C01", "C03", "C04", "C06", "C07", "C09", "C10", "C11", "C12", "C13", "C14", "C16"}, "decls": nodebug_decls, "profile": NODEBUG_PROFILE, "rustflags": None, "default_features": True,
      "features": cratebuild.ALL_FEATURES, "prefix": "debug-assertions-off:"},
     {"name": "fuzzcfg", "props": {"C09", "C14", "C12"}, "decls": lambda t, s_: corpus_arb.build(t, s_), "profile": None, "rustflags": ["--cfg", "fuzzing"], "default_features": True,
      "features": cratebuild.ALL_FEATURES, "prefix": "cfg-fuzzing:"},
